@@ -45,6 +45,7 @@ open Exa Exa.Rib Exa.Reload
 /-- The starting point for peer `a`: the peer runs the configured section `old`, no neighbor
     definition or teardown is pending. -/
 structure Live (w : World) (a : Nat) (old : Nbr) (p : PeerSt) (s : Sess) : Prop where
+  noPending : w.pending = []      -- `ParseNeighbor._attach` is empty: holds after every reload (`reload_pending`)
   nbr : AList.lookup a w.nbrs = some old
   peer : AList.lookup a w.peers = some p
   cur : p.cur.nbr = old
@@ -69,7 +70,7 @@ theorem reload_delta_up (w : World) (c : Config) (a : Nat) (old n : Nbr) (p : Pe
       ∀ m, AList.lookup m (applyEvs t (w1.drain a).2) = deltaView s.rib.cacheView old.plain n.plain m := by
   subst hname
   intro w1
-  obtain ⟨hok1, hpair, _⟩ := reactorReload_ok w c hnodup n hn
+  obtain ⟨hok1, hpair, _⟩ := reactorReload_ok w c hl.noPending hnodup n hn
   have hsame' : p.cur.nbr.sameSession n = true := by rw [hl.cur]; exact hsame
   rw [hl.peer, hl.rib] at hpair
   simp only [decided, decidePeer, hl.nbr, hsame', Bool.not_true, Bool.false_eq_true, if_false, hup, if_true,
@@ -102,7 +103,7 @@ theorem reload_delta_up_midloop (w : World) (c : Config) (a : Nat) (old n : Nbr)
     ∀ m, AList.lookup m (applyEvs t (wx.2 ++ (w1.drain a).2)) = deltaView s.rib.cacheView old.plain n.plain m := by
   subst hname
   intro wx w1
-  obtain ⟨_, hpair, _⟩ := reactorReload_ok w c hnodup n hn
+  obtain ⟨_, hpair, _⟩ := reactorReload_ok w c hl.noPending hnodup n hn
   have hsame' : p.cur.nbr.sameSession n = true := by rw [hl.cur]; exact hsame
   rw [hl.peer, hl.rib] at hpair
   simp only [decided, decidePeer, hl.nbr, hsame', Bool.not_true, Bool.false_eq_true, if_false, hup, if_true,
@@ -130,7 +131,7 @@ theorem reload_delta_down (w : World) (c : Config) (a : Nat) (old n : Nbr) (p : 
       ∀ m, AList.lookup m (applyEvs [] (w1.drain a).2) = deltaView s.rib.cacheView old.plain n.plain m := by
   subst hname
   intro w1
-  obtain ⟨hok1, hpair, _⟩ := reactorReload_ok w c hnodup n hn
+  obtain ⟨hok1, hpair, _⟩ := reactorReload_ok w c hl.noPending hnodup n hn
   have hsame' : p.cur.nbr.sameSession n = true := by rw [hl.cur]; exact hsame
   rw [hl.peer, hl.rib] at hpair
   simp only [decided, decidePeer, hl.nbr, hsame', Bool.not_true, Bool.false_eq_true, if_false, hup,
@@ -162,7 +163,7 @@ theorem reload_delta_restart (w : World) (c : Config) (a : Nat) (old n : Nbr) (p
       ∀ m, AList.lookup m (applyEvs [] (w1.drain a).2) = deltaView (famView n.fams s.rib) old.plain n.plain m := by
   subst hname
   intro w1
-  obtain ⟨hok1, hpair, _⟩ := reactorReload_ok w c hnodup n hn
+  obtain ⟨hok1, hpair, _⟩ := reactorReload_ok w c hl.noPending hnodup n hn
   have hsame' : p.cur.nbr.sameSession n = false := by rw [hl.cur]; exact hsame
   rw [hl.peer, hl.rib] at hpair
   simp only [decided, decidePeer, hl.nbr, hsame', Bool.not_false, if_true, Option.map_some] at hpair
@@ -185,7 +186,7 @@ theorem reload_delta_restart (w : World) (c : Config) (a : Nat) (old n : Nbr) (p
 
 /-- **reload_delta, new neighbor**: a section whose name had neither peer nor RIB nor previous
     definition gets a peer; its first session, drained, carries exactly the configured routes. -/
-theorem reload_delta_new (w : World) (c : Config) (a : Nat) (n : Nbr)
+theorem reload_delta_new (w : World) (c : Config) (a : Nat) (n : Nbr) (hpend : w.pending = [])
     (h1 : AList.lookup a w.nbrs = none) (h2 : AList.lookup a w.peers = none) (h3 : AList.lookup a w.ribs = none)
     (hnodup : (c.nbrs.map Nbr.name).Nodup) (hn : n ∈ c.nbrs) (hname : n.name = a) (hr : RoutesOK n) :
     let w1 := (reactorReload w c none).1.establish a
@@ -194,7 +195,7 @@ theorem reload_delta_new (w : World) (c : Config) (a : Nat) (n : Nbr)
       ∀ m, AList.lookup m (applyEvs [] (w1.drain a).2) = deltaView (fun _ => none) [] n.plain m := by
   subst hname
   intro w1
-  obtain ⟨hok1, hpair, _⟩ := reactorReload_ok w c hnodup n hn
+  obtain ⟨hok1, hpair, _⟩ := reactorReload_ok w c hpend hnodup n hn
   rw [h2, h3] at hpair
   simp only [decided, decidePeer, h1, Option.map_none] at hpair
   obtain ⟨hp', hs'⟩ := Prod.mk.inj hpair
@@ -228,41 +229,104 @@ theorem deltaView_spec (cv : Nat → Option (Nat × Nat)) (prev new : List Route
     syntax error after any number `k` of completed neighbor sections, a parser raising anything
     after any `k`, the file missing or empty — `Reactor.reload()` reports failure and
     `configuration.neighbors`, `configuration.processes`, every RIB (cache, queues, watchdog books,
-    transmission state) and every peer are exactly as they were: the world is unchanged.
-    No hypothesis on the world or on the file. -/
+    transmission state) and every peer are exactly as they were.  No hypothesis on the world or
+    on the file.  And the parser's list of sections waiting for their RIB (`_attach`) is not left
+    with anything of the refused file: it is empty (as it was: `reload_pending`), so the whole
+    world is unchanged. -/
 theorem reload_fail_atomic (w : World) (c : Config) (f : Fault) :
     (reactorReload w c (some f)).2 = false ∧
     (reactorReload w c (some f)).1.nbrs = w.nbrs ∧
     (reactorReload w c (some f)).1.procs = w.procs ∧
     (reactorReload w c (some f)).1.ribs = w.ribs ∧
     (reactorReload w c (some f)).1.peers = w.peers ∧
-    (reactorReload w c (some f)).1 = w := by
-  cases f <;> simp [reactorReload, cfgReload, clearStage, parseStage, abortStage]
+    (w.pending = [] → (reactorReload w c (some f)).1 = w) := by
+  cases f <;> simp [reactorReload, cfgReload, clearStage, parseStage, abortStage] <;>
+    (intro h; cases w; simp_all)
+
+/-- **The abort empties `_attach`** — whatever was parsed of the refused file (`k` complete
+    sections), nothing of it waits to be bound to a RIB by a later commit.  (This is where a
+    failed reload could still reach a LATER successful one: `attach_ribs()` binds everything the
+    list holds, see the `example` with a stale list below.) -/
+theorem reload_fail_empties_pending (w : World) (c : Config) (k : Nat) :
+    (reactorReload w c (some .firstLine)).1.pending = [] ∧
+    (reactorReload w c (some (.syntax k))).1.pending = [] ∧
+    (reactorReload w c (some (.exception k))).1.pending = [] :=
+  ⟨reload_pending w c _ (by intro h; cases h), reload_pending w c _ (by intro h; cases h),
+   reload_pending w c _ (by intro h; cases h)⟩
+
+/-- `_attach` is empty after every reload (successful or not) of a world where it was empty: it
+    is an invariant of every history of reloads from the start (`World.init.pending = []`; no
+    peer or API operation touches it). -/
+theorem reload_keeps_pending_empty (w : World) (c : Config) (f : Option Fault) (h : w.pending = []) :
+    (reactorReload w c f).1.pending = [] := reload_pending w c f (fun _ => h)
 
 /-- **Nothing is sent because of a failed reload**: what any established peer transmits
     afterwards (`xmit`: any transmission steps; `drain`) is what it would have transmitted. -/
-theorem reload_fail_sends_nothing (w : World) (c : Config) (f : Fault) (a : Nat) (ops : List Op) :
+theorem reload_fail_sends_nothing (w : World) (c : Config) (f : Fault) (hp : w.pending = []) (a : Nat) (ops : List Op) :
     ((reactorReload w c (some f)).1.xmit a ops).2 = (w.xmit a ops).2 ∧
     (((reactorReload w c (some f)).1.loopTop a).drain a).2 = ((w.loopTop a).drain a).2 ∧
     (((reactorReload w c (some f)).1.establish a).drain a).2 = ((w.establish a).drain a).2 := by
-  rw [(reload_fail_atomic w c f).2.2.2.2.2]
+  rw [(reload_fail_atomic w c f).2.2.2.2.2 hp]
   exact ⟨rfl, rfl, rfl⟩
 
 /-- **The API keeps working**: an API command after the failed reload does what it would have
     done. -/
-theorem reload_fail_api_works (w : World) (c : Config) (f : Fault) (a : Nat) (op : Op) :
+theorem reload_fail_api_works (w : World) (c : Config) (f : Fault) (hp : w.pending = []) (a : Nat) (op : Op) :
     (reactorReload w c (some f)).1.api a op = w.api a op := by
-  rw [(reload_fail_atomic w c f).2.2.2.2.2]
+  rw [(reload_fail_atomic w c f).2.2.2.2.2 hp]
 
-/-- **The next reload is not affected**: after a failed reload, reloading any file (in particular
-    the corrected one) gives exactly what it would have given — so every `reload_delta_*`
-    theorem applies to it — and a valid file is accepted. -/
-theorem reload_after_failure_ok (w : World) (c c' : Config) (f : Fault) :
+/-- **The next reload is not affected** — and so, by induction, neither is any later one: after a
+    failed reload, reloading any file (the original, a corrected one) gives exactly what it would
+    have given without the failed attempt, so every `reload_delta_*` theorem applies to it; and a
+    valid file is accepted. -/
+theorem reload_after_failure_ok (w : World) (c c' : Config) (f : Fault) (hp : w.pending = []) :
     reactorReload (reactorReload w c (some f)).1 c' none = reactorReload w c' none ∧
     (reactorReload (reactorReload w c (some f)).1 c' none).2 = true := by
-  rw [(reload_fail_atomic w c f).2.2.2.2.2]
+  rw [(reload_fail_atomic w c f).2.2.2.2.2 hp]
   refine ⟨rfl, ?_⟩
   simp [reactorReload, cfgReload]
+
+/-- Any number of failed reloads in a row leave the world as it was. -/
+theorem reload_failures_atomic (w : World) (hp : w.pending = []) (attempts : List (Config × Fault)) :
+    attempts.foldl (fun w a => (reactorReload w a.1 (some a.2)).1) w = w := by
+  induction attempts with
+  | nil => rfl
+  | cons a t ih =>
+    simp only [List.foldl_cons]
+    rw [(reload_fail_atomic w a.1 a.2).2.2.2.2.2 hp]
+    exact ih
+
+/-! ## A neighbor removed, then added again -/
+
+/-- **A removed neighbor leaves nothing behind**: after a successful reload of a file that does
+    not list name `a` any more, there is no peer, no configured section and NO RIB under that
+    name (`Peer.remove()` → `stop()` → `rib.uncache()`): neither the configured routes nor the
+    API routes of the removed neighbor are kept anywhere. -/
+theorem reload_removed_leaves_nothing (w : World) (c : Config) (hp : w.pending = []) (a : Nat)
+    (hnodup : (c.nbrs.map Nbr.name).Nodup) (ha : a ∉ c.nbrs.map Nbr.name)
+    (hpeer : (AList.lookup a w.peers).isSome = true) :
+    (reactorReload w c none).2 = true ∧
+    AList.lookup a (reactorReload w c none).1.peers = none ∧
+    AList.lookup a (reactorReload w c none).1.ribs = none ∧
+    AList.lookup a (reactorReload w c none).1.nbrs = none :=
+  ⟨by simp [reactorReload, cfgReload], removed_leaves_nothing w c hp a hnodup ha hpeer⟩
+
+/-- **…so a later neighbor of that name starts from an empty Adj-RIB-Out**: a neighbor removed by
+    one successful reload (`c1`) and added again by a later one (`c2`, section `n`, any routes)
+    ends up, after its first session has drained, with exactly the routes of `n` — nothing of
+    what the earlier incarnation had configured or had been sent through the API. -/
+theorem reload_readd_starts_empty (w : World) (c1 c2 : Config) (hp : w.pending = []) (a : Nat) (n : Nbr)
+    (hnodup1 : (c1.nbrs.map Nbr.name).Nodup) (ha : a ∉ c1.nbrs.map Nbr.name)
+    (hpeer : (AList.lookup a w.peers).isSome = true)
+    (hnodup2 : (c2.nbrs.map Nbr.name).Nodup) (hn : n ∈ c2.nbrs) (hname : n.name = a) (hr : RoutesOK n) :
+    let w1 := (reactorReload w c1 none).1
+    let w2 := (reactorReload w1 c2 none).1.establish a
+    ∀ m, AList.lookup m (applyEvs [] (w2.drain a).2) = deltaView (fun _ => none) [] n.plain m := by
+  intro w1 w2
+  obtain ⟨_, h2, h3, h1⟩ := reload_removed_leaves_nothing w c1 hp a hnodup1 ha hpeer
+  have hp1 : w1.pending = [] := reload_keeps_pending_empty w c1 none hp
+  obtain ⟨_, s1, _, _, _, htab⟩ := reload_delta_new w1 c2 a n hp1 h1 h2 h3 hnodup2 hn hname hr
+  exact htab
 
 /-! ### the witnesses -/
 
@@ -315,6 +379,24 @@ example :
 example :
     ((reactorReload wLive cfgNew (some .missingFile)).1.api 1 (.add (rt 6 2 1 1) false)).ribs ≠ wLive.ribs := by
   decide
+
+/-- The model can express a stale `_attach` (what a parser that forgot to empty it would leave):
+    with the first section of the refused file still in the list, reloading the UNCHANGED
+    original file binds it and the peer is sent the refused file's routes (prefix 1 at attributes 3
+    before it goes back to 1, and prefix 4, which no accepted file ever listed, for good) — the situation
+    `reload_fail_empties_pending` excludes. -/
+example :
+    (((reactorReload { wLive with pending := [nbNew1] } cfgOld none).1.loopTop 1).drain 1).2
+      = [Ev.ann (rt 1 1 3 1), Ev.ann (rt 1 1 1 1), Ev.ann (rt 4 1 1 1)] ∧
+    (((reactorReload wLive cfgOld none).1.loopTop 1).drain 1).2 = [] := by decide
+
+/-- Neighbor 1 (configured 1, 2; API route 5) removed, then added again with other routes: its
+    RIB is gone after the removal, and the new incarnation's first session carries the new
+    section only. -/
+example :
+    AList.lookup 1 (reactorReload wLive { procs := [1], nbrs := [nb2] } none).1.ribs = none ∧
+    (((reactorReload (reactorReload wLive { procs := [1], nbrs := [nb2] } none).1 cfgNew none).1.establish 1).drain 1).2
+      = [Ev.ann (rt 1 1 3 1), Ev.ann (rt 4 1 1 1)] := by decide
 
 /-- The former "poisoned parser" witness: after the syntax error the corrected file loads, and
     the peer gets the delta. -/
